@@ -21,6 +21,44 @@ def nullwalk(db):
     return _nw[id(db)]
 
 
+def rule_eof_divergence(ctx):
+    """analysis A9 (uv/eofwalk.py): no input-consuming loop of the tokenizer is inescapable at the end of the input"""
+    from ..eofwalk import EofWalk
+    db = ctx.db
+    r = ctx.rule("eof-divergence", "no loop of the tokenizer that reads through TokenContext is definitely inescapable at the end of the input, "
+                 "where more() is false, peek()/get() return 0 and get() makes no progress (three-valued evaluation of the loop conditions "
+                 "in the loop's steady state at EOF; character classes and small helper functions evaluated at 0)")
+    ew = EofWalk(db)
+    for prob in ew.check_model():
+        r.require(False, prob)
+    # sanity of the evaluator on two facts the analysis leans on
+    sp = db.fn("unc_isspace")
+    r.require(ew.call_const(sp, [("int", 0)], 0) == ("int", 0), "unc_isspace(0) no longer evaluates to 0")
+    n = 0
+    for f in db.funcs.values():
+        if not any(p["t"].startswith("TokenContext") for p in f.d.get("params", ())) and f.d.get("cls") != "TokenContext":
+            continue
+        cnt = {}
+        for h, body, backs in f.loops():
+            if not ew.consumes(f, body):
+                continue
+            n += 1
+            r.seen()
+            res = ew.analyse_loop(f, h, body)
+            t = f.blocks[h].get("term")
+            cond = expr_str(f, t.get("c"))[:50] if t and t.get("c") is not None else "body"
+            cnt[cond] = cnt.get(cond, 0) + 1
+            inst = "%s/%s%s" % (f.qn, cond, "" if cnt[cond] == 1 else "#%d" % cnt[cond])
+            if res is None:
+                r.ok(inst, "%s:%d" % (f.file, f.blocks[h]["n"][0]["l"] if f.blocks[h]["n"] else f.l0))
+            else:
+                r.fail(inst, "%s:%d" % (f.file, res["header_line"]),
+                       "the loop `%s` cannot be left at the end of the input (more() false, peek()/get() == 0%s): a file that ends inside this "
+                       "construct hangs uncrustify" % (res["cond"], "".join(", %s == %s" % kv for kv in sorted(res["env"].items()))))
+    r.note("input-consuming loops analysed: %d" % n)
+    r.floor(40, "input-consuming loops")
+
+
 def rule_sentinel_divergence(ctx):
     db = ctx.db
     r = ctx.rule("sentinel-divergence", "no loop whose cursor(s) advance only through the chunk navigation family is definitely "
@@ -303,4 +341,4 @@ def rule_no_error_after_output(ctx):
     r.floor(1)
 
 
-RULES = [rule_sentinel_divergence, rule_null_links_immutable, rule_no_throw, rule_exit_discipline, rule_no_error_after_output]
+RULES = [rule_sentinel_divergence, rule_eof_divergence, rule_null_links_immutable, rule_no_throw, rule_exit_discipline, rule_no_error_after_output]
